@@ -2750,7 +2750,13 @@ bool BW_MidiSequencer::parseCMF(FileAndMemReader &fr)
         size_t trackLength;
         size_t pos = fr.tell();
         fr.seek(0, FileAndMemReader::END);
-        trackLength = fr.tell() - pos;
+        size_t fileEnd = fr.tell();
+        if(pos > fileEnd) // a file on disk lets the music offset point behind its end
+        {
+            m_errorString = fr.fileName() + ": Empty track data";
+            return false;
+        }
+        trackLength = fileEnd - pos;
         fr.seek(static_cast<long>(pos), FileAndMemReader::SET);
 
         // Read track data
